@@ -58,11 +58,13 @@ type script struct {
 	Name     string   `json:"name"`
 	Etcd     bool     `json:"etcd"`
 	StartErr bool     `json:"start_err"`
+	Keys0    []int    `json:"keys0,omitempty"`   // etcd: registered before helium.New
+	Between  []action `json:"between,omitempty"` // etcd: put/del executed after the stream's Watch, before its Get
 	Acts     []action `json:"actions"`
 }
 
 type slotObs struct {
-	Act action  `json:"act"`
+	Act action    `json:"act"`
 	Got [][][]int `json:"got"`
 }
 
@@ -110,13 +112,20 @@ func addrOrd(s string) int {
 // ServiceStatusStream and RegisterService use); everything else passes through.
 type prefixKV struct {
 	meta.KV
-	p string
+	p      string
+	once   sync.Once
+	preGet func() // runs inside the first Get: ServiceStatusStream has its watch by then
 }
 
 func (k *prefixKV) Watch(ctx context.Context, key string, opts ...clientv3.OpOption) clientv3.WatchChan {
 	return k.KV.Watch(ctx, k.p+key, opts...)
 }
 func (k *prefixKV) Get(ctx context.Context, key string, opts ...clientv3.OpOption) (*clientv3.GetResponse, error) {
+	k.once.Do(func() {
+		if k.preGet != nil {
+			k.preGet()
+		}
+	})
 	return k.KV.Get(ctx, k.p+key, opts...)
 }
 func (k *prefixKV) StartEphemeral(ctx context.Context, path string, heartbeat time.Duration) (<-chan struct{}, func(), error) {
@@ -223,6 +232,40 @@ func runScript(sc script, mercury *etcdv3.Mercury) (res result) {
 		defer close(sendq)
 	}
 
+	unregs := map[int]func(){}
+	defer func() {
+		for _, u := range unregs {
+			go u()
+		}
+	}()
+	kvop := func(a action) {
+		switch a.Kind {
+		case "put":
+			// real RegisterService: lease + put-if-absent; the returned func revokes the lease
+			_, unreg, err := mercury.RegisterService(root, addrName(a.Addr), 30*time.Second)
+			if err == nil {
+				unregs[a.Addr] = unreg
+			}
+		case "del":
+			if u := unregs[a.Addr]; u != nil {
+				delete(unregs, a.Addr)
+				u()
+			}
+		}
+	}
+	if sc.Etcd {
+		for _, k := range sc.Keys0 {
+			kvop(put(k))
+		}
+		if pk, ok := mercury.KV.(*prefixKV); ok {
+			pk.preGet = func() {
+				for _, a := range sc.Between {
+					kvop(a)
+				}
+			}
+		}
+	}
+
 	h := helium.New(root, types.GRPCConfig{ServiceDiscoveryPushInterval: interval}, st)
 	t0 := time.Now()
 
@@ -234,13 +277,6 @@ func runScript(sc script, mercury *etcdv3.Mercury) (res result) {
 		}
 	}()
 	var unsubRet []*atomic.Bool
-	unregs := map[int]func(){}
-	defer func() {
-		for _, u := range unregs {
-			go u()
-		}
-	}()
-
 	order := func() []int { // subscriber numbers in haxmap iteration order
 		var o []int
 		shadow.ForEach(func(_ uint32, v int) bool { o = append(o, v); return true })
@@ -300,17 +336,8 @@ func runScript(sc script, mercury *etcdv3.Mercury) (res result) {
 			sendq <- func() { stub.ch <- l }
 		case "close":
 			sendq <- func() { close(stub.ch) }
-		case "put":
-			// real RegisterService: lease + put-if-absent; the returned func revokes the lease
-			_, unreg, err := mercury.RegisterService(root, addrName(a.Addr), 30*time.Second)
-			if err == nil {
-				unregs[a.Addr] = unreg
-			}
-		case "del":
-			if u := unregs[a.Addr]; u != nil {
-				delete(unregs, a.Addr)
-				u()
-			}
+		case "put", "del":
+			kvop(a)
 		case "sub":
 			ctx, cancel := context.WithCancel(root)
 			id, ch := h.Subscribe(ctx)
@@ -440,7 +467,16 @@ func coqCase(res result) string {
 		}
 		return "[" + strings.Join(s, ";") + "]"
 	}
-	return fmt.Sprintf("(mkCase %s %s [%s] %s %s)", vh.Bool(res.Script.StartErr), vh.Bool(res.Script.Etcd),
+	btw := make([]string, len(res.Script.Between))
+	for i, a := range res.Script.Between {
+		if a.Kind == "put" {
+			btw[i] = fmt.Sprintf("Put %d", a.Addr)
+		} else {
+			btw[i] = fmt.Sprintf("Del %d", a.Addr)
+		}
+	}
+	return fmt.Sprintf("(mkCase %s %s %s [%s] [%s] %s %s)", vh.Bool(res.Script.StartErr), vh.Bool(res.Script.Etcd),
+		coqAset(res.Script.Keys0), strings.Join(btw, ";"),
 		strings.Join(slots, ";\n    "), bl(res.FinClosed), bl(res.FinUnsub))
 }
 
@@ -517,6 +553,11 @@ func corpus() []script {
 func corpusEtcd() []script {
 	return []script{
 		{Name: "etcd-basic", Etcd: true, Acts: []action{sub(true), put(1), put(2), wait, del(1), wait, on("cancelunsub", 0), wait}},
+		// changes committed between the stream's Watch and its Get are seen by the Get AND replayed by the watch
+		{Name: "etcd-watch-get-window", Etcd: true, Keys0: []int{1, 2}, Between: []action{put(3), del(1), put(1), del(2)},
+			Acts: []action{sub(true), wait, put(2), wait, on("cancelunsub", 0), wait}},
+		{Name: "etcd-window-put-del", Etcd: true, Keys0: []int{4}, Between: []action{put(5), del(5), del(4)},
+			Acts: []action{sub(true), wait, put(6), wait, on("cancelunsub", 0), wait}},
 		{Name: "etcd-reregister", Etcd: true, Acts: []action{put(3), sub(true), wait, put(3), del(3), put(3), wait, sub(true), put(4), wait, on("cancelunsub", 0), on("cancelunsub", 1), wait}},
 	}
 }
@@ -558,6 +599,17 @@ func (g gen) script(name string, etcd bool, allowStall bool) script {
 			}
 		}
 		return set(l...)
+	}
+	if etcd {
+		for x := 1; x <= 4; x++ {
+			if g.rng.Intn(3) == 0 {
+				sc.Keys0 = append(sc.Keys0, x)
+				cur[x] = true
+			}
+		}
+		for i := g.rng.Intn(4); i > 0; i-- {
+			sc.Between = append(sc.Between, change())
+		}
 	}
 	emit(change())
 	for len(sc.Acts) < n {
